@@ -607,6 +607,15 @@ func (m *c17Machine) ruleExit(t *rapid.T) {
 	m.settle()
 }
 
+// ruleAdvance: (virtual) time passes while nothing else happens. A Worker has no notion of time: an instance that is
+// slow to return after it was told to stop is waited for, however long it takes.
+func (m *c17Machine) ruleAdvance(t *rapid.T) {
+	d := rapid.SampledFrom([]time.Duration{time.Millisecond, time.Second, 3 * time.Second, time.Minute, 24 * time.Hour}).Draw(t, "advance")
+	time.Sleep(d)
+	m.tr("advance(%v)", d)
+	m.settle()
+}
+
 // ruleStopDo: Do calls issued while the instance is stopping (told to stop, not yet returned). They must stay
 // pending until the instance returned and are then served by exactly one fresh instance.
 func (m *c17Machine) ruleStopDo(t *rapid.T) {
@@ -785,7 +794,7 @@ func c17RunStep(t *rapid.T, st *vkit.Stats) {
 	m.w.exitYields = rapid.SampledFrom([]int{0, 0, 1, 4}).Draw(t, "fnExitYields")
 	m.tr("step(fnY=%d/%d)", m.w.startYields, m.w.exitYields)
 
-	w := map[string]int{"do": 4, "done": 3, "exit": 2, "stopdo": 4, "race": 6}
+	w := map[string]int{"do": 4, "done": 3, "exit": 2, "stopdo": 4, "race": 6, "advance": 2}
 	actions := map[string]func(*rapid.T){}
 	add := func(name string, f func(*rapid.T)) {
 		for i := 0; i < w[name]; i++ {
@@ -797,6 +806,7 @@ func c17RunStep(t *rapid.T, st *vkit.Stats) {
 	add("exit", m.ruleExit)
 	add("stopdo", m.ruleStopDo)
 	add("race", m.ruleRace)
+	add("advance", m.ruleAdvance)
 	t.Repeat(vkit.NoStarve(actions, nil))
 
 	// ---- teardown: everybody lets go, the instance is let out, nothing may remain
